@@ -116,6 +116,6 @@ Definition roundtrip_counterexamples_runs (ml : bool) (alpha : list N) (lens : l
     and the characters of every [replace] pattern (any other character is copied by every step). *)
 Definition interesting_chars : list N :=
   map snd (esc_table gen_tables)
-  ++ flat_map (fun cs => match snd cs with PReplace o _ => o | PSub _ | PSubN _ _ => [] end) gen_pipeline.
+  ++ flat_map (fun cs => match snd cs with PReplace o _ => o | PSub _ | PSubN _ _ | PSubLA _ _ => [] end) gen_pipeline.
 Definition codepoint_table : list (N * list N * list N) :=
   map (fun c => (c, gen_escape false [c], gen_escape true [c])) interesting_chars.
